@@ -1,5 +1,6 @@
 CONSTANTS MaxIn = 2  MaxOut = 1
 CONSTANT HashSequence <- BadHashSequence
+CONSTANT HtSet <- HtAll
 SPECIFICATION Spec
 INVARIANTS CommitmentLemma
 CHECK_DEADLOCK FALSE
